@@ -28,6 +28,7 @@ EXPLANATION = (
     "C04); (R7) what the transforms consume is right: the read plan (C01's rules re-evaluated) and, for remove_zerodm, the "
     "bandpass reduction and its kernel (C06's rules for bandpass re-evaluated). Not decided: sample values and the zero-DM quantisation tolerance. "
     "Since F38/F52: no negative delay reaches the sub-banding kernel (R2), and a sub-band count that does not divide nchans is rejected before the output exists (R4)."
+    " Since F54/F55: the 2-D mean decimator's C14 obligations (definition, float64 accumulator, exact division) are re-evaluated (R7), and extract_chans rejects a selection as soon as any channel is out of range (R4)."
 )
 BASE = "sigpyproc.base"
 
